@@ -898,6 +898,43 @@ def _value_key(e):
     return None
 
 
+def _may_be_none(f, e) -> bool:
+    """the expression is a parameter with default None / an Optional annotation, or `self.<attr>` assigned from such
+    a parameter or from None somewhere in the class"""
+    def optional_param(fn, name):
+        if fn is None:
+            return False
+        a = fn.node.args
+        pos = a.posonlyargs + a.args
+        defaults = dict(zip([x.arg for x in pos[len(pos) - len(a.defaults):]], a.defaults))
+        defaults.update({k.arg: d for k, d in zip(a.kwonlyargs, a.kw_defaults) if d is not None})
+        for p_ in pos + a.kwonlyargs:
+            if p_.arg == name:
+                d = defaults.get(name)
+                if isinstance(d, ast.Constant) and d.value is None:
+                    return True
+                if p_.annotation is not None and unparse(p_.annotation).startswith(('Optional[', 'typing.Optional[')):
+                    return True
+        return False
+
+    if isinstance(e, ast.Name):
+        return optional_param(f, e.id)
+    if isinstance(e, ast.Attribute) and isinstance(e.value, ast.Name) and f is not None and f.cls is not None \
+            and e.value.id == f.self_name:
+        for meth in f.cls.methods.values():
+            for n in walk_own(meth.node):
+                if isinstance(n, (ast.Assign, ast.AnnAssign)):
+                    tgts = n.targets if isinstance(n, ast.Assign) else [n.target]
+                    for t_ in tgts:
+                        if isinstance(t_, ast.Attribute) and t_.attr == e.attr and isinstance(t_.value, ast.Name) \
+                                and t_.value.id == meth.self_name and n.value is not None:
+                            if isinstance(n.value, ast.Constant) and n.value.value is None:
+                                return True
+                            if isinstance(n.value, ast.Name) and optional_param(meth, n.value.id):
+                                return True
+    return False
+
+
 def uses_of_values_found_absent(m) -> List[Tuple[int, str, str]]:
     """[(line, function key, expression)]: inside the branch of an `if` in which a name / attribute path has just been
     found to be None or false (`if not x:` / `if x is None:` - or the else-branch of `if x:` / `if x is not None:`),
@@ -910,15 +947,19 @@ def uses_of_values_found_absent(m) -> List[Tuple[int, str, str]]:
             continue
         t = x.test
         cases = []
+        fx_ = m.enclosing_func(x)
         if isinstance(t, ast.UnaryOp) and isinstance(t.op, ast.Not):
-            cases.append((_value_key(t.operand), x.body))
+            # a truth test says "None" only for a value that may be None: an optional parameter / attribute (an empty
+            # list that is then appended to is not absent)
+            if _may_be_none(fx_, t.operand):
+                cases.append((_value_key(t.operand), x.body))
         elif isinstance(t, ast.Compare) and len(t.ops) == 1 and isinstance(t.comparators[0], ast.Constant) \
                 and t.comparators[0].value is None:
             if isinstance(t.ops[0], ast.Is):
                 cases.append((_value_key(t.left), x.body))
             elif isinstance(t.ops[0], ast.IsNot):
                 cases.append((_value_key(t.left), x.orelse))
-        else:
+        elif _may_be_none(fx_, t):
             cases.append((_value_key(t), x.orelse))
         for k, stmts in cases:
             if k is None:
